@@ -41,6 +41,9 @@ type Check struct {
 	// it is run once by the driver in a worker process after the families, and returns extra counters.
 }
 
+// AtWorkerExit, if set, runs when a worker process ends normally (coverage dump of instrumented builds).
+var AtWorkerExit func()
+
 var registry = map[string]*Check{}
 
 // Register adds a check.
@@ -110,6 +113,9 @@ func WorkerMain(id, tier string) {
 		journal, _ = os.OpenFile(p, os.O_CREATE|os.O_RDWR|os.O_TRUNC, 0o644)
 	}
 	fams := c.Families(tier)
+	if AtWorkerExit != nil {
+		defer AtWorkerExit()
+	}
 	in := bufio.NewReaderSize(os.Stdin, 1<<20)
 	out := bufio.NewWriter(os.Stdout)
 	for {
